@@ -51,6 +51,13 @@ def scenarios(tier, seed):
         out.append(("order:%s:4700" % oname, [S("THREE", 4700, "ml")], oname, 16, 0))
         out.append(("order:%s:two" % oname, [S("ONE", 2300, "ml"), S("TWO", 30, "basic", ext="BAS")], oname, 16, 1))
     out.append(("two:5+2294", [S("ONE", 5, "ml"), S("TWO", 2294, "ml")], "default", 16, 1))
+    out.append(("mlff:40", [S("MLFF", 40, "mlff")], "default", 16, 0))
+    out.append(("mlff:2300", [S("MLFF", 2300, "mlff")], "perm0", 16, 0))
+    out.append(("two:2299+2299", [S("ONE", 2299, "ml"), S("TWO", 2299, "ml")], "default", 16, 1))
+    for oname in ["straddle", "perm0", "reversed"]:
+        out.append(("order:%s:2299" % oname, [S("FILL", 2299, "ml")], oname, 16, 0))
+        out.append(("order:%s:2301" % oname, [S("NEAR", 2301, "ml")], oname, 16, 0))
+        out.append(("order:%s:basic2302" % oname, [S("NEARB", 2302, "basic", ext="BAS")], oname, 16, 0))
     out.append(("three:mixed", [S("ONE", 300, "ml"), S("TWO", 10, "basic", ext="BAS"), S("TXT", 2305, "ascii", ext="TXT")], "default", 16, 0))
     out.append(("allsym:64", [S("SYM", 64, "ml", allsym=64)], "default", 64, 0))
     if full:
